@@ -155,12 +155,15 @@ def run_case(case):
                 sat = lad_f < -(25.0 + 3.0 * x[0].numel())
                 # ... or y has collapsed: moving x by 1e-6 relative does not move some element of y at all
                 try:
-                    with torch.no_grad():
-                        xp = x + 1e-6 * (1 + x.abs())
+                    flat = torch.zeros(B, dtype=torch.bool)
+                    for sgn in (1.0, -1.0):
+                        xp = x + sgn * 1e-6 * (1 + x.abs())
                         if me["dom_in"][0] == "box":
-                            xp = torch.where(xp > me["dom_in"][2], x - 1e-6 * (1 + x.abs()), xp)
-                        yp, _ = model(xp, ctx)
-                    flat = ((yp == yy) & (xp != x)).reshape(B, -1).any(1) if yp.shape == yy.shape else torch.zeros(B, dtype=torch.bool)
+                            xp = xp.clamp(me["dom_in"][1], me["dom_in"][2])
+                        with torch.no_grad():
+                            yp, _ = model(xp, ctx)
+                        if yp.shape == yy.shape:
+                            flat = flat | ((yp == yy) & (xp != x)).reshape(B, -1).any(1)
                     sat = sat | flat
                 except Exception:
                     pass
@@ -250,15 +253,18 @@ def run_case(case):
                     ci0 = ctx[i] if ctx is not None else None
                     J, _, _ = jm.item_jacobian(lambda z, c: model(z, c), xi0, ci0)
                     smin = float(torch.linalg.svdvals(J).min())
-                    dlt = 1e-7 * (1 + float(xi0.abs().max()))
                     sens = 0.0
                     gg = torch.Generator().manual_seed(case["seed"] + i)
-                    for _ in range(3):
+                    for dlt in (1e-7, 1e-9, 1e-11):     # knots of strongly non-uniform splines are very local
+                        dlt = dlt * (1 + float(xi0.abs().max()))
                         u = torch.sign(torch.randn(xi0.shape, generator=gg))
+                        xa_, xb_ = xi0 + dlt * u, xi0 - dlt * u
+                        if me["dom_in"][0] == "box":
+                            xa_, xb_ = xa_.clamp(me["dom_in"][1], me["dom_in"][2]), xb_.clamp(me["dom_in"][1], me["dom_in"][2])
                         with torch.no_grad():
-                            la = model((xi0 + dlt * u)[None], ci0[None] if ci0 is not None else None)[1]
-                            lb = model((xi0 - dlt * u)[None], ci0[None] if ci0 is not None else None)[1]
-                        sens = max(sens, abs(float(la) - float(lb)) / (2 * dlt))
+                            la = model(xa_[None], ci0[None] if ci0 is not None else None)[1]
+                            lb = model(xb_[None], ci0[None] if ci0 is not None else None)[1]
+                        sens = max(sens, abs(float(la) - float(lb)) / max(float((xa_ - xb_).abs().max()), 1e-300))
                     if smin > 0 and np.isfinite(sens):
                         allowed = allowed + sens * (1e-12 if world == "f64" else 1e-5) * (1 + ny + float(xi0.abs().max())) / smin
                         r.count("antisymmetry_sensitivity_scaled")
